@@ -30,6 +30,9 @@ def gen_case(rng, nmax):
     if kind == "changing":
         k = rng.randint(0, min(4, max(0, n - 1)))
         cps = sorted(rng.sample(range(0, n), k)) if n > 0 else []
+        if cps and rng.random() < 0.25:  # a repeated changepoint delimits an empty segment (its mean / variance apply to no row)
+            cps = sorted(cps + [rng.choice(cps)])
+            k = len(cps)
         c["cps"] = cps
         nseg = k + 1
         c["means"], c["vars"] = param_lists(rng, nseg, p)
